@@ -74,8 +74,42 @@ def cases(tier, seed):
     for model, alpha, change in itertools.product(['clpt_donnell_bc1', 'fsdt_donnell_bc1', 'clpt_sanders_bc4'], [0., 30.],
                                                   ['laminaprop', 'laminaprops', 'stack', 'plyt', 'r2', 'alphadeg', 'edge', 'loads', 'orders']):
         out.append(dict(kind='redef', model=model, alpha=alpha, change=change, seed=seed))
+    # named boundary conditions (documentation table of doc/source/theory/conecyl/bcs.rst) == explicit elastic edge restraints
+    for model, alpha, bc, hist in itertools.product(['clpt_donnell_bc4', 'fsdt_donnell_bc4', 'clpt_donnell_bc1'], [0., 30.], BCNAMES,
+                                                    ['fresh', 'after_other']):
+        out.append(dict(kind='bcname', model=model, alpha=alpha, bc=bc, hist=hist, seed=seed))
     out.append(dict(kind='inventory', skipped=skipped, seed=seed))
     return out
+
+
+# documented table: name -> which of (u, v, w, phix, phit) are restrained (infinite stiffness); all others zero
+BCTABLE = {'ss1': 'uvw', 'ss2': 'vw', 'ss3': 'uw', 'ss4': 'w', 'cc1': 'uvwx', 'cc2': 'vwx', 'cc3': 'uwx', 'cc4': 'wx', 'free': ''}
+BCNAMES = list(BCTABLE) + ['ss1-cc1', 'ss1-ss2', 'cc4_ss3', 'SS2', 'free-cc1']
+
+
+def check_bcname(case):
+    fails = []
+    cfg = cfg_of(dict(model=case['model'], alpha=case['alpha'], geo='g1', ords=(2, 2, 2), lam='general'))
+    a = rs.shell_of(cfg)
+    if case['hist'] == 'after_other':
+        a.bc = 'cc1' if case['bc'].lower() != 'cc1' else 'ss4'
+        a._calc_linear_matrices(silent=True)
+    a.bc = case['bc']
+    a._calc_linear_matrices(silent=True)
+    b = rs.shell_of(cfg)
+    name = case['bc'].lower().replace('_', '-')
+    bot, top = name.split('-') if '-' in name else (name, name)
+    inf, zero = min(b.inf, 1.0e8), b.zero
+    for sfx, nm in (('Bot', bot), ('Top', top)):
+        on = BCTABLE[nm]
+        for att, letter in (('ku', 'u'), ('kv', 'v'), ('kw', 'w'), ('kphix', 'x'), ('kphit', 't')):
+            setattr(b, att + sfx, inf if letter in on else zero)
+    b._calc_linear_matrices(silent=True)
+    A, B = a.k0.toarray(), b.k0.toarray()
+    if A.shape != B.shape or np.abs(A - B).max() > 1e-12 * np.abs(B).max():
+        fails.append(fail('k0 with the named boundary condition differs from k0 with the documented elastic edge restraints set explicitly', sig=None,
+                          case=case, rel=float(np.abs(A - B).max() / np.abs(B).max()) if A.shape == B.shape else None))
+    return dict(fails=fails, execs=3, transitions=2, nontrivial=1)
 
 
 def cfg_of(case, s=40):
@@ -303,7 +337,7 @@ def check_case(case):
         return check_redef(case)
     if case['kind'] == 'inventory':
         return dict(fails=[], execs=1, nontrivial=0, skipped=case['skipped'])
-    return dict(k0=check_k0, cyl=check_cyl, kg=check_kg, iso=check_iso)[case['kind']](case)
+    return dict(k0=check_k0, cyl=check_cyl, kg=check_kg, iso=check_iso, bcname=check_bcname)[case['kind']](case)
 
 
 def summarize(results, tier, seed):
